@@ -1,7 +1,9 @@
 """Helpers shared by the scenario-based engines: option dicts -> runner script tokens."""
 
 KEYS = ("prog", "wd", "env", "extra", "in", "out", "err", "rparent", "rdiscard", "stop", "dl",
-        "input", "nb", "fork", "term", "skill", "ignpipe", "argvnull", "text", "runex")
+        "input", "nb", "fork", "term", "skill", "ignpipe", "argvnull", "text", "runex",
+        "ident", "rfile", "rpath", "nofile", "pathmode", "handlemode", "argvx", "envx", "wdx", "progx",
+        "hin", "hout", "herr")
 
 
 def start_tokens(h, opts):
